@@ -165,9 +165,11 @@ def r10_3(ctx):
             cases = value_cases(sc, "value_k", key=kn, within=sc.enclosing_loops(c)[-1][2])
             want = Norm(None).key(ast.parse("target.numel()*(self.N)==value.numel() or target.numel()*(self.N+1)==value.numel()", mode="eval").body)
             want = want.replace("target", tname)
+            # with the exclusion of a value that has the symbol's own shape (D93, R10.12)
+            want2 = Norm(None).key(ast.parse("value.shape != target.shape and (target.numel()*(self.N)==value.numel() or target.numel()*(self.N+1)==value.numel())", mode="eval").body).replace("target", tname)
             seen = {}
             for cd, leaf in cases:
-                own = [c_ for c_ in cd if c_[0] == want]
+                own = [c_ for c_ in cd if c_[0] in (want, want2)]
                 if len(own) != 1:
                     ok = False
                     continue
@@ -472,3 +474,23 @@ def r10_11(ctx):
                 and any(k.arg == "include_self" and ast.unparse(k.value) == "True" for k in loops[-1][1].keywords)
     ctx.check(ok, "Stage.set_initial re-applies the guess tables of every stage of the tree", detail="only the table of the stage that was called is re-applied: stages whose guesses depend on the guessed symbol (an OCP-level variable used as their horizon) keep the numbers computed before",
               expected="for s in self.master.iter_stages(include_self=True): s._method.apply_initial(s._augmented, self.master._method, s._initial)", found=found, fi=f)
+
+
+@rule("R10.12", min_instances=4, desc="a guess that has the shape of the symbol itself is a constant, whatever N is: every test that recognises an n-by-N / n-by-(N+1) array of per-interval guesses by its number of entries excludes values of the symbol's own shape")
+def r10_12(ctx):
+    """D93: with N = 1 a 1-by-m guess for a 1-by-m state satisfies numel(target)*N == numel(value); it was split into columns and each
+    entry broadcast over the whole symbol ([1,2,3] became [1,1,1] at node 0 and [3,3,3] at node 1)."""
+    P = ctx.prog
+    n = 0
+    for cname in ("SamplingMethod", "DirectCollocation"):
+        f = P.own_method(cname, "set_initial")
+        for t in [x for x in ast.walk(f.node) if isinstance(x, (ast.If, ast.IfExp))]:
+            txt = ast.unparse(t.test).replace(" ", "")
+            if "numel()*self.N" in txt.replace("(self.N)", "self.N") and "value.numel()" in txt:
+                n += 1
+                ok = ".shape" in txt and ("value.shape!=" in txt or "!=value.shape" in txt or "notvalue.shape==" in txt)
+                ctx.check(ok, "%s.set_initial: the per-interval-array test excludes a value of the symbol's own shape" % cname,
+                          detail="N = 1: a constant guess for a row-vector symbol is taken for an array with one column per interval and broadcast entry by entry",
+                          expected="value.shape != target.shape and (numel(target)*N == numel(value) or numel(target)*(N+1) == numel(value))", found=ast.unparse(t.test)[:120], fi=f, node=t)
+    if n < 4:
+        raise AnalysisError("R10.12: only %d per-interval-array tests found in the set_initial functions (expected 4)" % n)
